@@ -72,6 +72,7 @@ type c04Iter struct {
 	pinged     bool
 	semiStmts  int
 	wrote      bool
+	probeFail  map[string]bool // hosts whose probes by this instance failed in this iteration
 }
 
 func newC04Monitor(sc *Scen, w int, ha []string) *c04Monitor {
@@ -242,6 +243,12 @@ func (m *c04Monitor) afterStmt(w *world.World, c *world.StmtCtx) {
 			}
 		}
 	}
+	if !c.Mut && c.Errno != 0 {
+		if it.probeFail == nil {
+			it.probeFail = map[string]bool{}
+		}
+		it.probeFail[c.Host] = true
+	}
 }
 
 // MarkFault tells the monitor that the instance's current iteration had an injected fault.
@@ -289,7 +296,9 @@ func (m *c04Monitor) judgeEnd(w *world.World, inst string, it *c04Iter, how stri
 	if how == "completed" && !faulted {
 		// healthy completed iterations that began after a replica had been away for the whole delay
 		for h, since := range m.notReplSince {
-			if it.begin > since+c04InactDelay {
+			// the failure clock of the code starts when both the manager's probe and the host's own health record
+			// (refreshed every 5 s) are bad, i.e. up to one health-check interval after the ground-truth instant
+			if it.begin > since+c04InactDelay+6*time.Second {
 				m.healthyAfter[h]++
 			}
 		}
@@ -375,8 +384,8 @@ func (m *c04Monitor) onListWrite(w *world.World, r fakezk.Rec) {
 		if _, marked := m.sc.S.Cached("recovery/" + h); marked {
 			m.sc.Violate("C04", "S3:recovery-marked-host-in-list", fmt.Sprintf("%s published %v which contains %s, marked for recovery", inst, V, h))
 		}
-		if srv == nil || ms == nil || it == nil {
-			continue
+		if srv == nil || ms == nil || it == nil || it.probeFail[h] {
+			continue // the rules below presuppose that the manager could see the replica's state in this iteration
 		}
 		if since, ok := m.divergedSince[h]; ok && since < it.begin {
 			m.sc.Violate("C04", "S3:diverged-replica-in-list", fmt.Sprintf("%s published %v which contains %s whose executed set has foreign transactions the master lacks (%s) since %.1fs, before the iteration began at %.1fs",
